@@ -21,6 +21,7 @@ func init() {
 		Level: "exploration",
 		Rule: "generated administration histories (upsert new/same/re-weight incl. 0, remove present/absent/twice, request bursts) over a universe of 6 server identities with userinfo/query variants, run identically against RoundRobin and Rebalancer(RoundRobin); " +
 			"after every operation Servers()/ServerWeight()/the next rotation of selections are compared with a reference map keyed by (scheme,host,path); downstream handlers rewrite req.URL in place on sticky and non-sticky paths; " +
+			"the concurrent part ends with rounds of six callers adding the same unknown server at once (one removal takes it out, a second fails); " +
 			"concurrent part: requests racing with administration must be routed to a server that was a positive-weight member at some instant between call and return; non-trivial = history with a removal of a present server followed by requests; distinct by (target, meter mode, script)",
 		Assumptions: []string{"a new server upserted with weight 0 gets the default weight 1 (library convention)", "rebalancer weight equality is only demanded right after a membership/weight change"},
 		Parts: []Part{
@@ -324,6 +325,22 @@ func c02Script(c *Ctx) {
 			}
 			changed := false
 			switch {
+			case op < 4 && kind == "rb" && r.IntN(6) == 0 && func() bool { _, ex := model[k]; return !ex }():
+				// the server is first added to the wrapped balancer directly and then registered, with the same weight,
+				// with the rebalancer around it (a pool that existed before the rebalancer was put in front)
+				w := 1 + r.IntN(5)
+				script = append(script, sfmt("inner-add-then-register(%s,w=%d)", u.String(), w))
+				if err := t.rr.UpsertServer(u, roundrobin.Weight(w)); err != nil {
+					fail("upsert/error", "UpsertServer on the wrapped balancer failed: "+err.Error())
+					return
+				}
+				if err := t.upsert(u, roundrobin.Weight(w)); err != nil {
+					fail("upsert/error", "registering a server the wrapped balancer already knows failed: "+err.Error())
+					return
+				}
+				model[k] = w
+				changed = true
+				c.Count("inner_add_then_register", 1)
 			case op < 4: // upsert with weight
 				w := r.IntN(7)
 				if r.IntN(3) == 0 {
